@@ -25,6 +25,9 @@ _TUP = re.compile(r"<<|>>")
 
 def parse_tla_value(line):
     """Parse a TLA+ value printed by PrintT made only of tuples, ints, strings, booleans."""
+    line = line.strip()
+    if line.startswith('"'):
+        line = json.loads(line)
     s = _TUP.sub(lambda m: "[" if m.group(0) == "<<" else "]", line.strip())
     s = s.replace("TRUE", "true").replace("FALSE", "false")
     return json.loads(s)
@@ -96,13 +99,14 @@ def run_tlc(module, cfg, tag, workers=16, simulate=None, depth=None, seed=None, 
 
 
 _GEN = re.compile(r"^(\d+) states generated, (\d+) distinct states found")
+_SIMGEN = re.compile(r"^The number of states generated: (\d+)")
 _DEPTH = re.compile(r"^The depth of the complete state graph search is (\d+)")
 _INV0 = re.compile(r"^Error: Invariant (\S+) is violated by the initial state")
 _INV = re.compile(r"^Error: Invariant (\S+) is violated\.")
 _ACT = re.compile(r"^Error: Action property (\S+) is violated")
 _ASSUME = re.compile(r"^Error: Assumption .*line (\d+), col (\d+) to line (\d+).* of module (\S+) is false")
 _POST = re.compile(r"^Error: .*[Pp]ostcondition")
-_VAR = re.compile(r"^/\\ (\w+) = (.*)$")
+_VAR = re.compile(r"^(?:/\\ )?(\w+) = (.*)$")
 _COV = re.compile(r"^<(\w+) line (\d+), col \d+ to line \d+, col \d+ of module (\w+)>: (\d+):(\d+)")
 
 
@@ -111,7 +115,7 @@ def _parse(res, collect, print_file):
     cur = None
     with open(res.out_path) as f:
         for line in f:
-            if line.startswith("<<"):
+            if line.startswith("<<") or line.startswith('"<<'):
                 if pf:
                     pf.write(line)
                 elif collect:
@@ -123,6 +127,10 @@ def _parse(res, collect, print_file):
             m = _GEN.match(line)
             if m:
                 res.generated, res.distinct = int(m.group(1)), int(m.group(2))
+                continue
+            m = _SIMGEN.match(line)
+            if m:
+                res.generated = res.distinct = int(m.group(1))
                 continue
             m = _DEPTH.match(line)
             if m:
